@@ -7,6 +7,16 @@ def nontrivial(d):
     return any(r[2] < vmax for l in d["links"] for r in l["rs"])
 
 
+def _corrupt(ev, delta, expect):
+    """Changes the limit of the last point that lies under a restriction in one recorded profile."""
+    for i, e in enumerate(ev):
+        if e.get("ev") == "Profile" and e.get("via") == "bylink" and len(e["pts"]) >= 3:
+            j = len(e["pts"]) - 2
+            e["pts"][j][1] += delta * (8 if e["pts"][j][1] > 16 else 1)
+            return ev, i, expect
+    return None
+
+
 RULE = ("cases = every configuration reached by TLC in the bounded SpeedProfile configs (restriction lists per link, "
         "head/tail sets, gates, train length) + seeded random metre-scale layouts; distinct = distinct case "
         "descriptors (sha256); non-trivial = at least one restriction below the train's maximum speed")
@@ -19,9 +29,9 @@ GROUP = dict(
     name="speed", bin="avh_speed",
     model_spec="MCSpeedProfile.tla", trace_spec="SpeedProfileTrace.tla", trace_cfg="SpeedProfileTrace.cfg",
     models={
-        "quick": [dict(cfg="MCSpeedProfile_quickA.cfg", emit=True, max_emit=12000),
+        "quick": [dict(cfg="MCSpeedProfile_quickA.cfg", emit=True, max_emit=6000),
                   dict(cfg="MCSpeedProfile_gates.cfg", emit=True),
-                  dict(cfg="MCSpeedProfile_quickB.cfg", emit=False, timeout=300)],
+                  dict(cfg="MCSpeedProfile_quickB.cfg", emit=False, timeout=300, coverage=False)],
         "thorough": [dict(cfg="MCSpeedProfile_quickA.cfg", emit=True),
                      dict(cfg="MCSpeedProfile_gates.cfg", emit=True),
                      dict(cfg="MCSpeedProfile_quickB.cfg", emit=True, max_emit=150000, workers=16, timeout=900),
@@ -37,6 +47,11 @@ GROUP = dict(
         "C13": dict(invariants=["Exact", "Canonical", "SameByEveryPath", "ExtendOk", "NoPanic"], assumptions=ASSUME),
     },
     sigs={},
+    fault_models=[dict(cfg="MCSpeedProfile_pinned.cfg", expect=["Exact"])],   # the pinned insert_speed: TLC re-finds F-C13-1
+    corrupt={
+        "raise_limit": lambda ev: _corrupt(ev, +1, ["Safe", "Exact", "SameByEveryPath", "Canonical"]),
+        "lower_limit": lambda ev: _corrupt(ev, -1, ["Exact", "SameByEveryPath", "Canonical"]),
+    },
     vacuity=lambda r: ("no profile was recorded" if r["stats"].get("profiles", 0) == 0 else
                        "more than half of the generated networks were rejected" if r["stats"].get("skipped", 0) * 2 > r["n_cases"] else None),
 )
